@@ -247,7 +247,10 @@ def run_impl(case, run):
     try:
         test, fps = build(case)
         kind = case['kind']
+        inputs0 = snap(test)
         res = TestResultFailed(test, 'scripted failure') if kind == 'failed' else test.evaluate()
+        # evaluating is looking too: the test, its datasets and the results it observes are what they were
+        out['inputs_unchanged_by_evaluate'] = snap(test) == inputs0
         status_first = {'tasks': TaskStatus.DONE, 'tests': TestOutcome.SUCCESS}.get(kind)
         first = snap(res)
         verdict0 = bool(res)
@@ -345,6 +348,9 @@ def oracle(case, impl, run):
         fails.append(('verdict_stable', f"after operation #{i} ({case['ops'][i]['op']}) the verdict is {not impl['verdict0']}, it was {impl['verdict0']}"))
     if impl.get('deterministic') is False:
         fails.append(('evaluate_deterministic', 'a second evaluate() gave a different result'))
+    if impl.get('inputs_unchanged_by_evaluate') is False:
+        fails.append(('reads_are_identity', 'evaluate() changed the test object or what it observes (datasets, observed results and '
+                      'their tests)'))
     for i, name, err in impl.get('op_errors', []):
         run.count('op raised: ' + name)
     run.count('verdict=' + str(impl.get('verdict0')))
